@@ -122,7 +122,7 @@ fn bump(v: &RVal, up: bool) -> RVal {
         RVal::Date(y, m, d) => RVal::Date(if up { (*y + 1).min(9999) } else { (*y - 1).max(0) }, *m, (*d).min(28)),
         RVal::Time(h, m, s, n) => {
             if up {
-                RVal::Time(*h, *m, *s, (*n + 1).min(999_999_999))
+                RVal::Time(*h, *m, *s, (*n + 1).min(if *s == 59 && *n >= 1_000_000_000 { 1_999_999_999 } else { 999_999_999 }))
             } else {
                 RVal::Time(*h, *m, *s, n.saturating_sub(1))
             }
